@@ -88,6 +88,13 @@ def oracle_lines(text, k):
     return ls[:k]
 
 
+RELEASE = [False]   # which naija profile run_impl/run_pipe use (thorough runs a release pass too)
+
+
+def naija():
+    return common.naija_bin(RELEASE[0])
+
+
 def run_impl(env, idx, case, shim=True, timeout=60):
     """Runs naija on the case.  Returns dict(rc, out, err, log=[(count, n)...] | None, timeout=bool)."""
     text, sched, k, style = case["text"], case["sched"], case["k"], case.get("style", "vars")
@@ -106,9 +113,9 @@ def run_impl(env, idx, case, shim=True, timeout=60):
     res = {"timeout": False, "log": None}
     try:
         with open(tpath, "rb") as fin:
-            p = subprocess.run([common.naija_bin(), script_for(env, style, k)], stdin=fin, stdout=subprocess.PIPE,
+            p = subprocess.run([naija(), script_for(env, style, k)], stdin=fin, stdout=subprocess.PIPE,
                                stderr=subprocess.PIPE, env=e, timeout=timeout)
-        res.update(rc=p.returncode, out=p.stdout, err=p.stderr[-600:].decode("utf-8", "replace"))
+        res.update(rc=p.returncode, out=p.stdout, err=p.stderr[-8000:].decode("utf-8", "replace"))
     except subprocess.TimeoutExpired:
         res.update(rc=124, out=b"", err="[timeout]", timeout=True)
     if shim and os.path.exists(lpath):
@@ -129,7 +136,7 @@ def run_pipe(env, case, timeout=60):
     text, sched, k, style = case["text"], case["sched"], case["k"], case.get("style", "vars")
     e = dict(os.environ)
     e.pop("LD_PRELOAD", None)
-    p = subprocess.Popen([common.naija_bin(), script_for(env, style, k)], stdin=subprocess.PIPE, stdout=subprocess.PIPE,
+    p = subprocess.Popen([naija(), script_for(env, style, k)], stdin=subprocess.PIPE, stdout=subprocess.PIPE,
                          stderr=subprocess.PIPE, env=e)
     delays = case.get("delays") or []
 
@@ -165,7 +172,15 @@ def run_pipe(env, case, timeout=60):
         p.kill()
         out, err, rc, to = b"", b"[timeout]", 124, True
     t.join(timeout=5)
-    return {"rc": rc, "out": out, "err": err[-600:].decode("utf-8", "replace"), "timeout": to, "log": None}
+    return {"rc": rc, "out": out, "err": err[-8000:].decode("utf-8", "replace"), "timeout": to, "log": None}
+
+
+def err_summary(err):
+    ls = err.splitlines()
+    for i, l in enumerate(ls):
+        if "panicked at" in l or "error[" in l or "rror" in l and "-->" not in l:
+            return " | ".join(x.strip() for x in ls[i:i + 2])[:300]
+    return err[-200:]
 
 
 def impl_ok(res, case):
@@ -503,7 +518,7 @@ def case_json(case, res=None):
     if res is not None:
         d["impl_rc"] = res["rc"]
         d["impl_stdout_head"] = res["out"][:300].decode("utf-8", "replace")
-        d["impl_stderr_tail"] = res["err"][-300:]
+        d["impl_stderr"] = err_summary(res["err"])
     return d
 
 
@@ -608,7 +623,7 @@ def correspond(env, searching=False, model=True):
                         failures.append({"key": key, "case": case_json(small, sres),
                                          "expected_lines_head": [x.decode("utf-8", "replace")[:80] for x in oracle_lines(small["text"], small["k"])[:8]],
                                          "observed": "rc=%s, stdout differs from the k pieces of the text split at newlines" % sres["rc"]
-                                         if sres["rc"] == 0 else "rc=%s %s" % (sres["rc"], sres["err"][-200:])})
+                                         if sres["rc"] == 0 else "rc=%s %s" % (sres["rc"], err_summary(sres["err"]))})
                 continue
             if f["carry"] or f["split_line"]:
                 nontrivial.add(common.chash(case["text"].hex() + "|" + ",".join(str(n) for _, n in (res["log"] or [])) + "|%d" % case["k"]))
